@@ -132,14 +132,14 @@ CHECKS = {
                     "is tested before use. Equivalence with deleting the declaration for all inputs is not re-proved.",
             "note": TB},
     "C16": {"engine": "F+E", "design_ref": "DESIGN.md section 3 C16",
-            "technique": "static analysis: separator provenance of the parsed text, agreement of folded initialiser templates (declaration/definition/call/module variable), CLI option plumbing table with None-reachability, sibling-script normal forms",
+            "technique": "static analysis: separator provenance of the parsed text, agreement of folded initialiser templates (declaration/definition/call/module variable), CLI option plumbing table with None-reachability, abstract interpretation of the namespace-option normalisation over spelling classes in both scripts, aliasing rule on entry-point parameters",
             "text": "Decides that file contents are separated before parsing, that the main file and submodules agree on "
                     "initialiser name, signature and module variable, that every CLI option reaches its API keyword "
                     "and a possibly-None option never reaches a membership test, and that both scripts normalise the "
                     "top namespace identically. Linking/importing the combined module is not decided.",
             "note": TB + "; argparse semantics as documented"},
     "C17": {"engine": "E+F", "design_ref": "DESIGN.md section 3 C17",
-            "technique": "static analysis: confinement of the XML configuration to one template slot, Engler-style contradiction rule for Optional results with path facts, handler coverage, index bound, query provenance",
+            "technique": "static analysis: confinement of the XML configuration to one template slot, Engler-style contradiction rule for Optional results with path facts, handler coverage, index bound as guard implication, path enumeration of the name filter, def-use reachability of looked-up elements, counter-key provenance, regex-AST analysis of the literal encoder",
             "text": "Decides that XML configuration influences only the docstring slot (empty without XML), that "
                     "Optional XML results are never dereferenced without a dominating test, that unreadable/malformed "
                     "XML becomes an empty docstring, that the overload index is bounded and that class/method/argument "
@@ -156,7 +156,7 @@ CHECKS = {
                     "call histories are not decided.",
             "note": "trusted: clang 14 parser/Sema; /verif/stubs declare the documented MEX C API and minimal gtsam types"},
     "C19": {"engine": "G", "design_ref": "DESIGN.md section 3 C19",
-            "technique": "static analysis: memoisation-enabled lint over all modules + left-recursion/nullable-repetition analysis of the grammar IR",
+            "technique": "static analysis: memoisation-enabled lint over all modules + left-recursion/nullable-repetition/alternative-order analysis of the grammar IR, recursion fan-out of methods reachable from parse actions (call graph by name)",
             "text": "Decides the structural preconditions of polynomial parsing (memoisation on, unconditional, "
                     "never overridden; no left recursion; no nullable repetition). No time bound is claimed: "
                     "timing is a run-time quantity.",
